@@ -341,6 +341,9 @@ PWriteEpipe ==
   /\ UNCHANGED <<piped, cap, k, short, input, flood, buf, pOpen, cOpen, cPend, cAlive, now, inCall, limit, dl,
                  sawEof, written, delivered, inAcc, cRecv, cEof, pwDone, sanity>>
 
+\* a system call of the library failed with EINTR (nothing happened in the kernel)
+PEintr == UNCHANGED envvars
+
 PClose(s) ==
   /\ s \in piped /\ pOpen[s]
   /\ pOpen' = [pOpen EXCEPT ![s] = FALSE]
